@@ -6,6 +6,7 @@ import (
 	"encoding/base64"
 	"errors"
 	"fmt"
+	"github.com/mimecast/dtail/internal/vhook"
 	"io"
 	"strconv"
 	"strings"
@@ -303,9 +304,12 @@ func (h *baseHandler) flush() {
 
 func (h *baseHandler) shutdown() {
 	dlog.Server.Debug(h.user, "shutdown()")
+	vhook.Point("srv.shutdown.begin", vhook.ID(h))
 	h.flush()
+	vhook.Point("srv.shutdown.flushed", vhook.ID(h))
 
 	go func() {
+		vhook.Point("srv.shutdown.syn", vhook.ID(h))
 		select {
 		case h.serverMessages <- ".syn close connection":
 		case <-h.done.Done():
